@@ -307,10 +307,13 @@ class C17(Prop):
             if not (text.startswith("{%") and text.endswith("%}") and "liquid" in text):
                 res.fail("span", "span-text:LinesToken", f"slice={text!r}")
             p = tok.start + 2
+            # the statements lie between the opening `{%` and the closing `%}` (with its marker), like the
+            # expression of any other tag
+            inner_stop = tok.stop - 2 - (1 if text[-3:-2] in "-+~" and len(text) > 4 else 0)
             for j, st_ in enumerate(tok.statements):
-                if not (p <= st_.start < st_.stop <= tok.stop):
+                if not (p <= st_.start < st_.stop <= inner_stop):
                     res.fail("nesting", f"line-statement-span:{type(st_).__name__}",
-                             f"statement {j} [{st_.start}:{st_.stop}] not inside/after {p}..{tok.stop}; src={src!r}")
+                             f"statement {j} [{st_.start}:{st_.stop}] not inside/after {p}..{inner_stop}; src={src!r}")
                     return
                 if isinstance(st_, TagToken):
                     seg = src[st_.start:st_.stop]
